@@ -40,7 +40,10 @@ lines.append("Each sub-agent saw only the text of one property and a scratch "
              "metadata, file naming, symbolic links, URL spellings, file-"
              "format variants); round 7 (S7-*) required an exact boundary "
              "value or a coincidence between two quantities that smooth "
-             "random ranges almost never produce. 140 changes in total, 2 of "
+             "random ranges almost never produce; round 8 (S8-*) required "
+             "state that outlives one call (module / class-level caches, "
+             "mutated defaults, long-lived objects, files of an earlier run). "
+             "160 changes in total, 2 of "
              "them rejected as outside the input domain (marked); "
              "the 'caught by' column says when a check had to be "
              "strengthened first.\n")
